@@ -12,6 +12,7 @@ import (
 
 func init() {
 	vrt.Register("C13_repeat", Repeat)
+	vrt.Register("C13_same_context_again", SameContextAgain)
 	vrt.Register("C13_hash_order", HashOrder)
 	vrt.Register("C13_frozen_program", FrozenProgram)
 	vrt.Register("C13_cache_key", CacheKey)
@@ -69,6 +70,9 @@ var programs = []string{
 	"<%= for (v) in xs { %><%= tag({a: 1, b: \"s\"}) %>,<% } %>",
 	"<% let bump = fn(o) { o[\"n\"] = o[\"n\"] + 1 return o[\"n\"] } %><%= bump({n: 1}) %>;<%= bump({n: 1}) %>",
 	"<% let h = {n: 1} %><% h[\"n\"] = x %><%= h[\"n\"] %>|<%= {n: 1}[\"n\"] %>",
+	// a function value gives no way into the parsed program
+	"<% let f = fn(p, q) { return p } %><% f.Parameters[0] = f.Parameters[1] %>[<%= f(x, y) %>]",
+	"<% let f = fn(p) { if (p) { return 1 } return 2 } %><% f.Block.Statements[0] = f.Block.Statements[1] %>[<%= f(true) %>]",
 	// a + x is a value of its own: the data it was computed from is as it was
 	"<%= whole[3] %><% let longer = part + x %>|<%= whole[3] %>|<%= longer[3] %>",
 	"<% let a = [1, 2, 3] %><% let b = a + x %><% let c = a + y %><%= b[3] %>|<%= c[3] %>|<%= len(a) %>",
@@ -164,6 +168,47 @@ func Repeat() {
 	}
 	vrt.MapOrderNondet(false)
 	same(first, result{o2, e2, r2.log})
+	vrt.Cover("done")
+}
+
+// programs that compute new values from the data without assigning to it: the data is as it
+// was afterwards, so one context serves a second execution with the same result
+var pureOfData = []string{
+	"<%= whole[3] %><% let longer = part + x %>|<%= whole[3] %>|<%= longer[3] %>",
+	"<% let a = [1, 2, 3] %><% let b = a + x %><% let c = a + y %><%= b[3] %>|<%= c[3] %>|<%= len(a) %>",
+	"<% let b = part + x %><% let c = part + y %><%= b[3] %>|<%= c[3] %>|<%= len(part) %>|<%= whole[3] %>",
+	"<%= for (v) in part + y { %><%= v %>,<% } %>|<%= whole[3] %>",
+	"<% let f = fn(l) { return l + x } %><%= f(part)[3] %>|<%= f(part)[3] %>|<%= whole[3] %>",
+}
+
+// one context used for two executions
+func SameContextAgain() {
+	k := vrt.Choice(len(pureOfData))
+	prog := pureOfData[k]
+	x, y := vrt.Int(), vrt.Int()
+	vrt.Note("input", prog)
+	t, perr := plush.NewTemplate(prog)
+	vrt.Assert(perr == nil, "the catalogue programs parse")
+	ctx := newCtx(x, y, &recorder{})
+	o1, e1 := t.Exec(ctx)
+	o2, e2 := t.Exec(ctx)
+	same(result{o1, e1, nil}, result{o2, e2, nil})
+	vrt.Assert(e1 == nil, "these programs render")
+	sx, sy := strconv.Itoa(x), strconv.Itoa(y)
+	want := ""
+	switch k {
+	case 0:
+		want = "9|9|" + sx
+	case 1:
+		want = sx + "|" + sy + "|3"
+	case 2:
+		want = sx + "|" + sy + "|3|9"
+	case 3:
+		want = "1,2,3," + sy + ",|9"
+	case 4:
+		want = sx + "|" + sx + "|9"
+	}
+	vrt.Assert(o1 == want, "a + x is a value of its own: what it was computed from is unchanged")
 	vrt.Cover("done")
 }
 
